@@ -318,7 +318,7 @@ def run(ctx):
                             "missing-output/missing-first-of-two-outputs/check, keep-going and fail-fast, 1/2/4 workers; a failing history is repeated once) + fail-fast timing runs + fail-fast one-worker queue runs; non-trivial = distinct "
                             "(family,n,mode,#fail / failure kinds)")
     # ---- (c) broad randomized CLI worlds (shared generator; the C05-owned oracles are reported here) ----
-    wres, wcov = _cliworld.run_worlds(ctx, 24 if quick else 300, "C05")
+    wres, wcov = _cliworld.run_worlds(ctx, 30 if quick else 300, "C05")
     _cliworld.report(ctx, wres, wcov, "C05")
     ctx.coverage["oracle_failures"] = oracle_fail
     ctx.coverage["disagreements"] = len(disagreements)
@@ -332,6 +332,8 @@ def run(ctx):
 
 
 def replay(ctx, rep):
+    if "world" in rep:
+        return _cliworld.replay(ctx, rep)
     if "case" in rep:
         c = rep["case"]
         outs = W.run_impl(ctx, [c])
